@@ -910,7 +910,7 @@ Proof.
   rewrite Hr. replace (S (rank x - 1) - 1) with (rank x - 1) by lia. rewrite mask_of_shift.
   unfold teq, front, vmap_spec1, stack0, reduce_axes, reduceop. cbn [shape at_ slice]. rewrite Hrs.
   cbn [rshape nth remove_at]. split; [reflexivity|].
-  intros idx Hi. destruct idx as [|b r]; [inversion Hi|]. cbn [hd tl insert_at rext rmerge].
+  intros idx Hi. destruct idx as [|b r]; [inversion Hi|]. cbn [hd tl insert_at rext rmerge]. rewrite ?Hrs.
   unfold rkernel_ext in Hk. apply Hk. intro sub. reflexivity.
 Qed.
 
